@@ -12,7 +12,7 @@ Mirrors, function by function (paths relative to crates/trust-runtime/src):
                               set_fault_policy, set_watchdog_policy, set_io_safe_state, advance_time}`
   runtime/cycle.rs           `Runtime::{execute_cycle, read_cycle_inputs, write_cycle_outputs,
                               record_fault, execute_task / execute_background_programs (as a plan)}`
-  runtime/restart.rs         `Runtime::restart` (only what it does to the latch, clock and counter;
+  runtime/restart.rs         `Runtime::restart` (fallible; what it does to the latch, clock and counter;
                               the re-initialisation of variables is an abstract function — C09's subject)
 
 The machine is generic in the compiled application (`Sem`): the program bodies, the task plan, the
@@ -327,8 +327,10 @@ structure Sem (σ δ : Type) where
   publish : σ → Io → Io × Option Err
   /-- `maybe_save_retain_store` at the end of a cycle -/
   persist : Int → σ → δ → δ × Option Err
-  /-- what `restart` does to the variables and task states (C09) -/
-  reinit : RestartMode → σ → σ
+  /-- what `restart` does to the variables and task states (C09).  It can fail half-way (an
+  initialiser evaluated while the instances are re-created reports a runtime error): then the
+  storage is left partly rebuilt and the error is returned -/
+  reinit : RestartMode → σ → σ × Option Err
   /-- what a debugger write of value `v` to target `k` (a global, a retained or instance variable,
   an l-value) does to the storage; failures are discarded by the callers (`let _ = …`) -/
   poke : Nat → Int → σ → σ
@@ -577,12 +579,18 @@ def step (sem : Sem σ δ) (s : RState σ δ) : Op → PRes σ δ
   | .releaseVar k =>
     { st := { s with forcedVars := s.forcedVars.filter (fun p => !(p.1 == k)) }, evs := [], err := none }
   | .restart m =>
-    -- restart.rs: variables and task states re-initialised, clock and cycle counter to 0, latch
-    -- cleared; a cold restart also zero-fills the three images (lengths and the hierarchical map
-    -- are kept); drivers are not called
-    { st := { s with store := sem.reinit m s.store, now := 0, cycles := 0, faulted := false,
-                     lastFault := none, io := if m = .cold then s.io.zeroed else s.io },
-      evs := [], err := none }
+    -- restart.rs: variables and instances re-initialised (every `?` in that part returns early:
+    -- the storage stays partly rebuilt and NOTHING below happens — in particular the latch is
+    -- not cleared: a failed restart is not a restart); then call frames, clock, task states and
+    -- cycle counter reset, a cold restart zero-fills the three images (lengths and the
+    -- hierarchical map are kept), the latch is cleared; drivers are not called
+    let r := sem.reinit m s.store
+    match r.2 with
+    | some e => { st := { s with store := r.1 }, evs := [], err := some e }
+    | none =>
+      { st := { s with store := r.1, now := 0, cycles := 0, faulted := false,
+                       lastFault := none, io := if m = .cold then s.io.zeroed else s.io },
+        evs := [], err := none }
   | .clearFault => { st := { s with faulted := false, lastFault := none }, evs := [], err := none }
 
 /-- State after a history of operations. -/
@@ -599,10 +607,13 @@ An error ends the thread in `ResourceState::Faulted` with `last_error = e`.
 
 NOTE (finding C08-runner-restart-failure): that error path does NOT go through `apply_fault` —
 nothing is latched and no safe state is applied whatever the fault policy.  The model follows the
-code.  (`restart` itself is assumed to succeed; its failure takes the same path.) -/
+code.  (A failure of `restart` itself takes the same path.) -/
 def runnerRestartSignal (sem : Sem σ δ) (s : RState σ δ) (m : RestartMode) (loadErr : Option Err) :
     PRes σ δ :=
-  { st := (step sem s (.restart m)).st, evs := [], err := loadErr }
+  let r := step sem s (.restart m)
+  match r.err with
+  | some e => { st := r.st, evs := [], err := some e }
+  | none => { st := r.st, evs := [], err := loadErr }
 
 /-- One iteration of `run_resource_loop` after its prologue (stop flag, commands, restart signal,
 pause): `set_current_time(now)`, `execute_cycle()`, then — only if the cycle succeeded —
@@ -614,25 +625,29 @@ and `break`), then the watchdog branch (`wdEnabled`, and `over` = the wall-clock
 cycle exceeded the timeout: action `restart` ⇒ warm restart, otherwise `watchdog_timeout()`,
 `Faulted`, `break`).
 Result: new state, events, `some e` iff the thread ended in `Faulted` with `last_error = e`.
-`restart` is assumed to succeed. -/
+A warm restart that fails ends the thread in `Faulted` with the restart's error (`restart_err`),
+again without `apply_fault` (same finding). -/
 def runnerIter (sem : Sem σ δ) (s : RState σ δ) (t : Int) (wdEnabled over : Bool) (post : Option Err) :
     PRes σ δ :=
   let r := executeCycle sem { s with now := t }
   match r.err with
   | some e =>
-    if r.st.policy = .restart then { st := (step sem r.st (.restart .warm)).st, evs := r.evs, err := none }
+    if r.st.policy = .restart then
+      { st := (step sem r.st (.restart .warm)).st, evs := r.evs, err := (step sem r.st (.restart .warm)).err }
     else { st := r.st, evs := r.evs, err := some e }
   | none =>
     match post with
     | some _ =>
       let f := applyFault sem r.st .simulationFault (FaultDecision.fromFaultPolicy r.st.policy)
       if f.st.policy = .restart then
-        { st := (step sem f.st (.restart .warm)).st, evs := r.evs ++ f.evs, err := none }
+        { st := (step sem f.st (.restart .warm)).st, evs := r.evs ++ f.evs,
+          err := (step sem f.st (.restart .warm)).err }
       else { st := f.st, evs := r.evs ++ f.evs, err := some .simulationFault }
     | none =>
       if wdEnabled && over then
         if r.st.wdAction = .restart then
-          { st := (step sem r.st (.restart .warm)).st, evs := r.evs, err := none }
+          { st := (step sem r.st (.restart .warm)).st, evs := r.evs,
+            err := (step sem r.st (.restart .warm)).err }
         else
           let f := applyFault sem r.st .watchdogTimeout (FaultDecision.fromWatchdog r.st.wdAction)
           { st := f.st, evs := r.evs ++ f.evs, err := some .watchdogTimeout }
@@ -702,6 +717,14 @@ structure Cfg where
   /-- clock values at which the harness runs the cycle with an execution deadline in the past
   (`set_execution_deadline`): the first statement of the first program reports `ExecutionTimeout` -/
   expiredAt : List Int
+  /-- per program: it declares `gain : DINT := 100 / divisor` (`divisor` = global 9, RETAIN): its
+  instance cannot be (re-)created while `divisor = 0` -/
+  initDiv : List Bool := []
+  /-- function block instances associated with tasks (`PROGRAM I<p> WITH T : Prog<p> (fb<j> WITH T<t>)`):
+  body, owning program, and per task the FB instances it runs after its programs, in order -/
+  fbs : List (List Stmt) := []
+  fbOwner : List Nat := []
+  taskFbs : List (List Nat) := []
 deriving Repr
 
 structure CStore where
@@ -709,18 +732,20 @@ structure CStore where
   ns : List Nat
   vars : List Int
   sts : List C06.TState
-  /-- number of restarts that re-created the program instances (new `InstanceId`s) so far, and
-  whether the next restart will (reported by the harness: what restart does to instances is C09's
-  subject) -/
-  gen : Nat := 0
-  idsChange : Bool := true
+  /-- activation counters of the task-associated FB instances (of the instances the tasks refer to) -/
+  fns : List Nat := []
+  /-- per program: how often a restart has replaced its instance by a new one (new `InstanceId`),
+  and whether the next restart will — reported by the harness: what restart does to instances and
+  to the references held by bindings and tasks is C09's subject -/
+  gens : List Nat := []
+  idsChange : List Bool := []
 deriving DecidableEq, Repr
 
 structure CEnv where
   reads : List Nat
   writes : List Nat
   /-- last snapshot handed successfully to the retain store, number of `store` calls so far -/
-  lastSnap : Option Nat
+  lastSnap : Option (Nat × Int)
   stores : Nat
 deriving DecidableEq, Repr
 
@@ -805,16 +830,26 @@ def execStmts (n : Nat) : List Stmt → CStore → Nat → CStore × Nat × Opti
 
 /-- `execute_program` of generated program `p`: header `n := n + 1; steps := steps + 1;
 cnt := 1`, then the body. -/
-def exec (cfg : Cfg) (now : Int) (p : Nat) (st : CStore) : CStore × Nat × Option Err :=
+def exec (cfg : Cfg) (now : Int) (u : Nat) (st : CStore) : CStore × Nat × Option Err :=
   if cfg.expiredAt.contains now then (st, 0, some .executionTimeout) else
-  let n := st.ns.getD p 0 + 1
-  let st := { st with ns := st.ns.set p n, steps := st.steps + 1 }
-  execStmts n (cfg.progs.getD p []) st 1
+  if u < 100 then
+    let n := st.ns.getD u 0 + 1
+    let st := { st with ns := st.ns.set u n, steps := st.steps + 1 }
+    execStmts n (cfg.progs.getD u []) st 1
+  else
+    -- `execute_function_block_ref` of task-associated FB instance `u - 100` (same shape of body)
+    let f := u - 100
+    let n := st.fns.getD f 0 + 1
+    let st := { st with fns := st.fns.set f n, steps := st.steps + 1 }
+    execStmts n (cfg.fbs.getD f []) st 1
 
-/-- The scheduler of C06 decides which programs run and in which order. -/
+/-- The scheduler of C06 decides which tasks run and in which order; `execute_task` runs the
+task's programs, then its FB instances (units `100 + f`); programs without a task follow. -/
 def plan (cfg : Cfg) (now : Int) (st : CStore) : CStore × List Nat × Option Err :=
   let r := C06.cycle cfg.tasks cfg.progs.length st.sts (fun _ => false) now
-  ({ st with sts := r.1 }, r.2.programs, none)
+  let units := r.2.tasks.flatMap (fun t =>
+    C06.programsOf cfg.tasks t ++ (cfg.taskFbs.getD t []).map (· + 100))
+  ({ st with sts := r.1 }, units ++ C06.background cfg.tasks cfg.progs.length, none)
 
 /-- The retain store of the harness: the only retained variable is `steps`; `store` is called
 when the snapshot differs from the last one stored successfully; call `k` fails if scripted. -/
@@ -822,20 +857,43 @@ def persist (cfg : Cfg) (_now : Int) (st : CStore) (env : CEnv) : CEnv × Option
   match cfg.retain with
   | none => (env, none)
   | some fails =>
-    if env.lastSnap = some st.steps then (env, none) else
+    let snap := (st.steps, st.vars.getD 9 0)
+    if env.lastSnap = some snap then (env, none) else
     let k := env.stores
     if fails.contains k then ({ env with stores := k + 1 }, some .retainStore)
-    else ({ env with stores := k + 1, lastSnap := some st.steps }, none)
+    else ({ env with stores := k + 1, lastSnap := some snap }, none)
 
-/-- `restart`: every variable back to its initial value (`steps` is RETAIN when a retain store is
-configured: kept by a warm restart), task states re-created at time 0. -/
-def reinit (cfg : Cfg) (m : RestartMode) (st : CStore) : CStore :=
-  { steps := if m = .warm ∧ cfg.retain.isSome then st.steps else 0,
-    ns := cfg.progs.map (fun _ => 0),
-    vars := cfg.initVars,
-    sts := cfg.tasks.map (fun _ => C06.register 0 false),
-    gen := if st.idsChange then st.gen + 1 else st.gen,
-    idsChange := st.idsChange }
+/-- First program whose instance cannot be created because its initialiser divides by `d = 0`. -/
+def failingProg (initDiv : List Bool) (d : Int) : Option Nat :=
+  if d = 0 then initDiv.findIdx? (fun b => b) else none
+
+/-- `restart`: first the globals (initial values; RETAIN globals keep their value in a warm
+restart: `divisor` always, `steps` when a retain store is configured), then the program instances
+in declaration order — program `k` fails if its initialiser divides by zero, and then programs
+`< k` have been re-created, programs `>= k` have not, and nothing else has been reset; on success
+task states are re-created at time 0.  An FB instance a task refers to is re-initialised only if
+the restart re-initialises its program in place (no new `InstanceId`). -/
+def reinit (cfg : Cfg) (m : RestartMode) (st : CStore) : CStore × Option Err :=
+  let vars := if m = .warm then cfg.initVars.set 9 (st.vars.getD 9 0) else cfg.initVars
+  let steps := if m = .warm ∧ cfg.retain.isSome then st.steps else 0
+  let fail := failingProg cfg.initDiv (vars.getD 9 0)
+  let upto := match fail with | some k => k | none => cfg.progs.length
+  let done := fun (p : Nat) => decide (p < upto)
+  let fresh := fun (p : Nat) => st.idsChange.getD p true
+  let st' : CStore :=
+    { steps := steps,
+      vars := vars,
+      ns := (List.range cfg.progs.length).map (fun p => if done p then 0 else st.ns.getD p 0),
+      gens := (List.range cfg.progs.length).map
+        (fun p => if done p && fresh p then st.gens.getD p 0 + 1 else st.gens.getD p 0),
+      fns := (List.range cfg.fbs.length).map
+        (fun f => let p := cfg.fbOwner.getD f 0
+                  if done p && !fresh p then 0 else st.fns.getD f 0),
+      sts := match fail with
+        | some _ => st.sts
+        | none => cfg.tasks.map (fun _ => C06.register 0 false),
+      idsChange := st.idsChange }
+  (st', match fail with | some _ => some .divisionByZero | none => none)
 
 /-- Debugger write targets of the harness: `k < 100` global variable `k`; `100 + p` the activation
 counter `n` of program `p` addressed through its instance global (`I<p>.n`, resolved when applied);
@@ -844,7 +902,7 @@ counter `n` of program `p` addressed through its instance global (`I<p>.n`, reso
 def poke (_cfg : Cfg) (k : Nat) (v : Int) (st : CStore) : CStore :=
   if k < 100 then { st with vars := st.vars.set k v }
   else if k < 1000 then { st with ns := st.ns.set (k - 100) v.toNat }
-  else if k / 1000 = st.gen + 1 then { st with ns := st.ns.set (k % 1000) v.toNat }
+  else if k / 1000 = st.gens.getD (k % 1000) 0 + 1 then { st with ns := st.ns.set (k % 1000) v.toNat }
   else st
 
 def sem (cfg : Cfg) : Sem CStore CEnv where
@@ -861,7 +919,9 @@ def sem (cfg : Cfg) : Sem CStore CEnv where
 
 def initStore (cfg : Cfg) (t0 : Int) : CStore :=
   { steps := 0, ns := cfg.progs.map (fun _ => 0), vars := cfg.initVars,
-    sts := cfg.tasks.map (fun _ => C06.register t0 false) }
+    sts := cfg.tasks.map (fun _ => C06.register t0 false),
+    fns := cfg.fbs.map (fun _ => 0), gens := cfg.progs.map (fun _ => 0),
+    idsChange := cfg.progs.map (fun _ => true) }
 
 def initEnv (cfg : Cfg) : CEnv :=
   { reads := cfg.drivers.map (fun _ => 0), writes := cfg.drivers.map (fun _ => 0),
